@@ -23,12 +23,23 @@ Definition dict_inv (d : dctx) : Prop :=
   forall h, 0 <= get (d_tab d) h < d_cur d /\
             (d_cur d - d_dictSize d <= get (d_tab d) h \/ get (d_tab d) h + LZ4_DISTANCE_MAX <= d_cur d).
 
+(* the table never holds an index at or above currentOffset (0 = empty slot) *)
+Definition range_ok (c : sctx) : Prop :=
+  0 <= s_cur c /\ 0 <= s_dictSize c /\
+  (forall h, 0 <= get (s_tab c) h <= s_cur c) /\
+  (s_cur c <> 0 -> forall h, get (s_tab c) h < s_cur c).
+
 Definition table_inv (c : sctx) : Prop :=
-  ctx_ok (to_f c) /\
+  range_ok c /\
   match s_dctx c with
   | None => True
-  | Some d => dict_inv d /\ s_dictSize c = 0 /\ forall h, get (s_tab c) h + LZ4_DISTANCE_MAX <= s_cur c
+  | Some d => dict_inv d /\ s_dictSize c = 0 /\ 1 <= s_cur c
   end.
+
+(* tableType tag: a never-used table (clearedTable) sits at offset 0 or at least 64 KB (LZ4_loadDict of a
+   tiny dictionary and LZ4_attach_dictionary leave currentOffset = 64 KB with a cleared table) *)
+Definition tt_inv (c : sctx) : Prop :=
+  (s_tt c = 0 -> s_cur c = 0 \/ KB64 <= s_cur c) /\ (s_tt c = 0 \/ s_tt c = 2 \/ s_tt c = 3).
 
 (* the index range in which the streaming entry points may be called (they renormalise at 2^31) *)
 Definition stream_ready (c : sctx) : Prop := s_cur c <= 2147483648 /\ s_dictSize c <= s_cur c.
@@ -45,8 +56,8 @@ Qed.
 
 Lemma table_inv_init : table_inv s_init.
 Proof.
-  unfold table_inv, s_init, to_f. cbn [s_tab s_cur s_tt s_dictSize s_dctx].
-  split; [exact ctx_init_ok | exact I].
+  unfold table_inv, range_ok, s_init. cbn [s_tab s_cur s_tt s_dictSize s_dctx].
+  split; [|exact I]. split; [lia|]. split; [lia|]. split; intros; rewrite get_empty; lia.
 Qed.
 
 (* ---------------------------------------------------------------- renormDictT *)
@@ -75,17 +86,15 @@ Proof.
     { unfold ds', KB64. destruct (s_dictSize c >? 65536) eqn:E2; lia. }
     cbn [s_cur s_dictSize s_dict s_dctx].
     split.
-    { unfold table_inv, ctx_ok. cbn [to_f f_cur f_dictSize f_tab s_tab s_cur s_tt s_dictSize s_dctx].
+    { unfold table_inv, range_ok. cbn [to_f f_cur f_dictSize f_tab s_tab s_cur s_tt s_dictSize s_dctx].
       split.
       - split; [unfold KB64; lia|]. split; [lia|]. split.
         + intros h. rewrite G. specialize (B h). lia.
         + intros _ h. rewrite G. specialize (B h). lia.
       - destruct (s_dctx c) as [d|]; [|exact I]. destruct D2 as (D3 & D4 & D5).
-        split; [exact D3|]. split; [lia|].
-        intros h. rewrite G. specialize (D5 h). specialize (C3 h). unfold renorm_entry, delta, LZ4_DISTANCE_MAX, KB64 in *.
-        destruct (get (s_tab c) h <? s_cur c - 65536) eqn:E1; lia. }
+        split; [exact D3|]. split; [lia | unfold KB64; lia]. }
     split; [unfold KB64; lia|]. split; [unfold KB64 in *; lia|]. split; [reflexivity|]. split; [lia|]. split; lia.
-  - split; [unfold table_inv, ctx_ok; cbn [to_f f_cur f_dictSize f_tab]; tauto|].
+  - split; [unfold table_inv, range_ok; tauto|].
     repeat split; try reflexivity; lia.
 Qed.
 
@@ -109,7 +118,7 @@ Definition call_ok (c : sctx) (dd : cdict) (small : bool) : Prop :=
   tab_ok ByU32 dd small (s_cur c) (cd_dictSize c dd) 0 (s_cur c + 1) (s_tab c) /\
   (dd = CUsingDictCtx ->
    forall h, get (cd_dtab c dd) h + (s_cur c - cd_dcur c dd) < s_cur c /\
-             good ByU32 dd small (s_cur c) (cd_dictSize c dd) (get (cd_dtab c dd) h + (s_cur c - cd_dcur c dd))).
+             good3 ByU32 dd small (s_cur c) (cd_dictSize c dd) (get (cd_dtab c dd) h + (s_cur c - cd_dcur c dd))).
 
 Definition gen_upd (c : sctx) (dd : cdict) (n : Z) (tab : mem) : sctx :=
   match dd with
@@ -183,7 +192,7 @@ Proof.
   set (vrd := call_vrd m c dd source).
   assert (Hb : forall a, 0 <= vrd a < 256) by (intros a; apply vrd_of_byte; exact Hm).
   pose proof (compress_validated_factor vrd ByU32 od dd small (s_cur c) (cd_dictSize c dd) (cd_dtab c dd)
-                (s_cur c - cd_dcur c dd) n cap accel Hb K1 Hod 0 Hcur K3 ltac:(discriminate) Hacc (s_tab c) ltac:(lia) K2) as F.
+                (s_cur c - cd_dcur c dd) n cap accel Hb K1 Hod 0 Hcur K3 ltac:(discriminate) Hcur ltac:(discriminate) Hacc (s_tab c) ltac:(lia) K2) as F.
   assert (HB : endB (s_cur c) n = s_cur c + n) by (unfold endB; lia).
   fold (gen_upd c dd n).
   destruct (compress_validated vrd ByU32 od dd small (s_cur c) (cd_dictSize c dd) (cd_dtab c dd)
@@ -203,14 +212,14 @@ Qed.
 (* own dictionary (prefix or external), dictSmall decided by the API *)
 Lemma call_ok_own c dd :
   dd = CWithPrefix64k \/ dd = CUsingExtDict ->
-  ctx_ok (to_f c) -> s_dictSize c <= s_cur c ->
+  range_ok c -> s_dictSize c <= s_cur c ->
   call_ok c dd (small_dict c).
 Proof.
   intros Hdd (C1 & C2 & C3 & C4) D1. cbn [to_f f_cur f_dictSize f_tab] in *.
   assert (Ed : cd_dictSize c dd = s_dictSize c) by (unfold cd_dictSize; destruct Hdd as [-> | ->]; reflexivity).
   unfold call_ok. rewrite Ed. split; [exact C2|]. split; [|destruct Hdd as [-> | ->]; discriminate].
-  intros h. specialize (C3 h). split; [lia|].
-  unfold good, dist_active, small_dict, KB64, LZ4_DISTANCE_MAX.
+  intros h. specialize (C3 h). split; [lia|]. left.
+  unfold good3, dist_active, small_dict, KB64, LZ4_DISTANCE_MAX.
   assert (Hh : hist_lo dd (s_cur c) (s_dictSize c) = s_cur c - s_dictSize c) by (destruct Hdd as [-> | ->]; reflexivity).
   rewrite Hh.
   destruct (Z_le_gt_dec (s_cur c - s_dictSize c) (get (s_tab c) h)) as [Hin|Hout]; [left; exact Hin|].
@@ -227,9 +236,9 @@ Proof.
   unfold call_ok, cd_dictSize, cd_dtab, cd_dcur. rewrite E.
   split; [lia|]. destruct C as (C1 & C2 & C3 & C4). cbn [to_f f_cur f_dictSize f_tab] in *.
   split.
-  - intros h. specialize (C3 h). specialize (G h). split; [lia|].
-    right. right. split; [reflexivity | exact G].
-  - intros _ h. destruct (I3 h) as [B [Hin|Hfar]]; (split; [lia|]); unfold good, hist_lo.
+  - intros h. specialize (C3 h). specialize (C4 ltac:(lia) h). split; [lia|].
+    right. split; [reflexivity | lia].
+  - intros _ h. destruct (I3 h) as [B [Hin|Hfar]]; (split; [lia|]); unfold good3, hist_lo.
     + left. lia.
     + right. right. split; [reflexivity | lia].
 Qed.
@@ -240,7 +249,7 @@ Lemma call_ok_memcpy d :
 Proof.
   intros (I1 & I2 & I3). unfold call_ok, cd_dictSize, cd_dtab, cd_dcur. cbn [s_dctx s_dictSize s_cur s_tab].
   split; [lia|]. split; [|discriminate].
-  intros h. destruct (I3 h) as [B [Hin|Hfar]]; (split; [lia|]); unfold good, hist_lo.
+  intros h. destruct (I3 h) as [B [Hin|Hfar]]; (split; [lia|]); left; unfold good3, hist_lo.
   - left. lia.
   - right. right. split; [reflexivity | lia].
 Qed.
@@ -248,7 +257,7 @@ Qed.
 Lemma table_inv_with_dict c d ds :
   table_inv c -> 0 <= ds -> (s_dctx c <> None -> ds = 0) -> table_inv (with_dict c d ds).
 Proof.
-  intros ((C1 & C2 & C3 & C4) & D2) H H0. unfold table_inv, with_dict, ctx_ok.
+  intros ((C1 & C2 & C3 & C4) & D2) H H0. unfold table_inv, with_dict, range_ok.
   cbn [to_f f_cur f_dictSize f_tab s_tab s_cur s_tt s_dictSize s_dctx] in *.
   split; [split; [exact C1 | split; [lia | split; [exact C3 | exact C4]]]|].
   destruct (s_dctx c) as [x|]; [|exact I]. destruct D2 as (D3 & D4 & D5).
@@ -365,6 +374,24 @@ Proof.
     intros Hd. apply (B5 Hd).
 Qed.
 
+Lemma renorm_tt c n : tt_inv c -> tt_inv (renormDictT c n).
+Proof.
+  intros (V1 & V2). unfold renormDictT. destruct (u32 (s_cur c + n) >? 2147483648); [|split; assumption].
+  unfold tt_inv. cbn [s_tt s_cur]. split; [intros _; right; lia | exact V2].
+Qed.
+
+Lemma with_dict_tt c d ds : tt_inv c -> tt_inv (with_dict c d ds).
+Proof. intros V. exact V. Qed.
+
+Lemma prelude_tt c source n : tt_inv c -> tt_inv (fst (prelude c source n)).
+Proof.
+  intros V. pose proof (renorm_tt c n V) as V0. unfold prelude. cbv zeta.
+  set (c0 := renormDictT c n) in *.
+  destruct ((s_dictSize c0 <? 4) && negb ((if s_dictSize c =? 0 then 0 else s_dict c + s_dictSize c) =? source) && (n >? 0)
+            && match s_dctx c0 with None => true | Some _ => false end); cbn [fst snd];
+    match goal with |- context [if ?b then _ else _] => destruct b end; exact V0.
+Qed.
+
 (* which context / directive / dictIssue the mode selection hands to LZ4_compress_generic *)
 Definition continue_call (c : sctx) (dictEnd source n : Z) : sctx * cdict * bool :=
   if dictEnd =? source then (c, CWithPrefix64k, small_dict c) else
@@ -389,7 +416,7 @@ Lemma gen_upd_inv cc dd n tab :
   (dd = CUsingDictCtx \/ s_dctx cc = None) ->
   table_inv (gen_upd cc dd n tab).
 Proof.
-  intros Ht Hn Hc Hd Hx. unfold table_inv, gen_upd, ctx_ok.
+  intros Ht Hn Hc Hd Hx. unfold table_inv, gen_upd, range_ok.
   destruct Hx as [-> | Hx].
   - cbn [to_f f_cur f_dictSize f_tab s_tab s_cur s_tt s_dictSize s_dctx].
     split; [split; [lia | split; [lia | split; intros; specialize (Ht h); lia]]|]. exact I.
@@ -401,36 +428,36 @@ Lemma continue_call_ok c dictEnd source n :
   table_inv c -> s_dictSize c <= s_cur c -> (s_dctx c <> None -> dictEnd = 0) -> 0 < source -> 0 <= n <= LZ4_MAX_INPUT_SIZE -> s_cur c + n <= 2147483648 ->
   let '(cc, dd, small) := continue_call c dictEnd source n in
   call_ok cc dd small /\ 0 <= s_cur cc /\ 0 <= s_dictSize cc <= s_cur cc /\ s_cur cc + n <= 2147483648 /\
-  table_inv cc /\ (dd = CUsingDictCtx \/ s_dctx cc = None \/ n = 0 /\ cc = c) /\ dd <> CNoDict.
+  table_inv cc /\ (dd = CUsingDictCtx \/ s_dctx cc = None \/ n = 0 /\ cc = c) /\ dd <> CNoDict /\ (n <= 4096 -> cc = c).
 Proof.
   intros T D1 Hz Hs Hn R. pose proof T as ((C1 & C2 & C3 & C4) & D2). unfold LZ4_MAX_INPUT_SIZE in Hn.
   cbn [to_f f_cur f_dictSize f_tab] in *. unfold continue_call.
   destruct (dictEnd =? source) eqn:E.
   - split; [apply call_ok_own; [left; reflexivity | destruct T as (T & _); exact T | exact D1]|].
-    split; [lia|]. split; [lia|]. split; [lia|]. split; [exact T|]. split; [|discriminate].
+    split; [lia|]. split; [lia|]. split; [lia|]. split; [exact T|]. split; [|split; [discriminate | reflexivity]].
     right. left. destruct (s_dctx c); [|reflexivity]. exfalso. specialize (Hz ltac:(discriminate)). lia.
   - destruct (s_dctx c) as [d|] eqn:Ed.
     + destruct D2 as ((I1 & I2 & I3) & D3 & D4).
       destruct (n >? 4096) eqn:E4.
       * split; [apply call_ok_memcpy; exact (conj I1 (conj I2 I3))|]. cbn [s_cur s_dictSize s_dctx].
         split; [lia|]. split; [lia|]. split; [lia|]. split.
-        { unfold table_inv, ctx_ok. cbn [to_f f_cur f_dictSize f_tab s_tab s_cur s_tt s_dictSize s_dctx].
+        { unfold table_inv, range_ok. cbn [to_f f_cur f_dictSize f_tab s_tab s_cur s_tt s_dictSize s_dctx].
           split; [split; [lia | split; [lia | split; intros; specialize (I3 h); lia]]|]. exact I. }
-        split; [right; left; reflexivity | discriminate].
+        split; [right; left; reflexivity|]. split; [discriminate | intros; lia].
       * split; [eapply call_ok_dictctx; [exact T | exact Ed]|].
-        split; [lia|]. split; [lia|]. split; [lia|]. split; [exact T|]. split; [left; reflexivity | discriminate].
+        split; [lia|]. split; [lia|]. split; [lia|]. split; [exact T|]. split; [left; reflexivity|]. split; [discriminate | reflexivity].
     + split; [apply call_ok_own; [right; reflexivity | destruct T as (T & _); exact T | exact D1]|].
-      split; [lia|]. split; [lia|]. split; [lia|]. split; [exact T|]. split; [right; left; exact Ed | discriminate].
+      split; [lia|]. split; [lia|]. split; [lia|]. split; [exact T|]. split; [right; left; exact Ed|]. split; [discriminate | reflexivity].
 Qed.
 
 (* ---------------------------------------------------------------- main result for one LZ4_compress_fast_continue *)
 Theorem fast_continue_sound m c source n cap acc :
-  mem_ok m -> table_inv c -> stream_ready c -> 0 <= n <= LZ4_MAX_INPUT_SIZE -> 0 < source ->
+  mem_ok m -> table_inv c -> tt_inv c -> stream_ready c -> 0 <= n <= LZ4_MAX_INPUT_SIZE -> 0 < source ->
   let r := fast_continue m c source n cap acc in
   let c1 := fst (prelude c source n) in let dictEnd := snd (prelude c source n) in
   let '(cc, dd, small) := continue_call c1 dictEnd source n in
   (* the context after the call, successful or not *)
-  table_inv (r_ctx r) /\ stream_ready (r_ctx r) /\
+  table_inv (r_ctx r) /\ tt_inv (r_ctx r) /\ stream_ready (r_ctx r) /\
   (* a positive result is a factorisation over the virtual index space of the call *)
   (0 < r_ret r ->
    r_ret r = Z.of_nat (length (r_out r)) /\
@@ -438,14 +465,15 @@ Theorem fast_continue_sound m c source n cap acc :
     (0 < n /\ r_consumed r = n /\
      factored (call_vrd m cc dd source) (s_cur cc - cd_dictSize cc dd) (s_cur cc) n (r_out r)))).
 Proof.
-  intros Hm T R Hn Hs. cbv zeta.
+  intros Hm T V R Hn Hs. cbv zeta.
+  pose proof (prelude_tt c source n V) as V1.
   pose proof (prelude_inv c source n T R Hn ltac:(lia)) as P. cbv zeta in P.
   destruct P as (T1 & R1 & Q1 & X1 & S1 & Z1).
   rewrite fast_continue_eq, continue_body_eq.
   set (c1 := fst (prelude c source n)) in *. set (dictEnd := snd (prelude c source n)) in *.
   pose proof (continue_call_ok c1 dictEnd source n T1 Q1 Z1 Hs Hn R1) as K.
   destruct (continue_call c1 dictEnd source n) as [[cc dd] small].
-  destruct K as (K1 & K2 & K3 & K4 & K5 & K6 & K7).
+  destruct K as (K1 & K2 & K3 & K4 & K5 & K6 & K7 & K8).
   pose proof (clamp_accel_ge acc) as Hacc.
   pose proof (s_generic_ok m cc source n cap LimitedOutput dd small (clamp_accel acc) Hm ltac:(discriminate) Hacc K2 K3
                 ltac:(rewrite M32_val; unfold LZ4_MAX_INPUT_SIZE in *; lia) K1) as G.
@@ -458,20 +486,24 @@ Proof.
   (* invariant of the context the kernel call returns *)
   assert (TI : table_inv (r_ctx r) /\ s_cur (r_ctx r) <= 2147483648 /\ 0 <= n <= s_cur (r_ctx r) /\
                s_dictSize (r_ctx r) <= s_cur (r_ctx r) /\
-               (s_dctx (r_ctx r) <> None -> n = 0)).
+               (s_dctx (r_ctx r) <> None -> n = 0) /\ tt_inv (r_ctx r)).
   { destruct (Z.eq_dec n 0) as [Hz|Hnz].
-    - rewrite G1 by lia. split; [exact K5|]. split; [lia|]. split; [lia|]. split; [lia|]. intros _. exact Hz.
+    - rewrite G1 by lia. split; [exact K5|]. split; [lia|]. split; [lia|]. split; [lia|]. split; [intros _; exact Hz|].
+      rewrite (K8 ltac:(lia)). exact V1.
     - destruct (G2 ltac:(lia)) as (tab' & Ht & Er). rewrite Er.
       assert (Hx : dd = CUsingDictCtx \/ s_dctx cc = None) by (destruct K6 as [?|[?|[? _]]]; [left|right|lia]; assumption).
       split; [apply gen_upd_inv; try assumption; lia|].
-      unfold gen_upd. destruct Hx as [-> | Hx].
-      + cbn [s_cur s_dctx s_dictSize]. split; [lia|]. split; [lia|]. split; [lia|]. congruence.
-      + destruct dd; cbn [s_cur s_dctx s_dictSize]; (split; [lia|]; split; [lia|]; split; [lia|]; congruence). }
-  destruct TI as (TI1 & TI2 & TI3 & TI5 & TI4).
+      unfold gen_upd, tt_inv. destruct Hx as [-> | Hx].
+      + cbn [s_cur s_dctx s_dictSize s_tt]. split; [lia|]. split; [lia|]. split; [lia|]. split; [congruence|].
+        split; [intros; lia | right; left; reflexivity].
+      + destruct dd; cbn [s_cur s_dctx s_dictSize s_tt];
+          (split; [lia|]; split; [lia|]; split; [lia|]; split; [congruence|]; split; [intros; lia | right; left; reflexivity]). }
+  destruct TI as (TI1 & TI2 & TI3 & TI5 & TI4 & TI6).
   destruct (dictEnd =? source).
-  - split; [exact TI1|]. split; [split; [exact TI2 | exact TI5] | exact G3].
+  - split; [exact TI1|]. split; [exact TI6|]. split; [split; [exact TI2 | exact TI5] | exact G3].
   - cbn [r_ctx r_ret r_out r_consumed]. rewrite U.
     split; [apply table_inv_with_dict; [exact TI1 | lia | exact TI4]|].
+    split; [apply with_dict_tt; exact TI6|].
     split; [unfold stream_ready, with_dict; cbn [s_cur s_dictSize]; split; [exact TI2 | lia] | exact G3].
 Qed.
 
@@ -479,39 +511,87 @@ Qed.
 Lemma to_f_of_f f : to_f (of_f f) = f.
 Proof. destruct f; reflexivity. Qed.
 
-Lemma table_inv_of_f f : ctx_ok f -> table_inv (of_f f).
-Proof. intros H. unfold table_inv. rewrite to_f_of_f. split; [exact H | exact I]. Qed.
+(* ---------------------------------------------------------------- LZ4_prepareTable on any stream state *)
+Lemma tt_inv_init : tt_inv s_init.
+Proof. unfold tt_inv, s_init. cbn [s_tt s_cur]. split; [intros _|]; left; reflexivity. Qed.
+
+Lemma prepareTable_any c n t :
+  range_ok c -> tt_inv c ->
+  let c1 := s_prepareTable c n t in
+  let small := match t with ByU16 => negb (s_cur c1 =? 0) | ByU32 => false end in
+  range_ok c1 /\ tt_inv c1 /\ s_dictSize c1 = 0 /\ s_dict c1 = 0 /\ s_dctx c1 = None /\
+  tab_ok t CNoDict small (s_cur c1) 0 0 (s_cur c1 + 1) (s_tab c1) /\
+  (t = ByU16 -> 0 <= n < LZ4_64Klimit ->
+   s_cur c1 + n - MFLIMIT + 1 <= 65536 \/ (small = true /\ 65536 <= s_cur c1 - 0)) /\
+  (t = ByU32 -> (s_tt c <> 0 \/ s_cur c <= 2147418112) -> s_cur c1 <= 2147483648).
+Proof.
+  intros (C1 & C2 & C3 & C4) (V1 & V2). cbv zeta.
+  unfold s_prepareTable, of_f, prepareTable, to_f. cbn [f_tt f_cur f_tab f_dictSize]. cbv zeta.
+  set (reset := negb (s_tt c =? tt_code t)
+                || match t with ByU16 => s_cur c + n >=? 65535 | ByU32 => false end
+                || match t with ByU32 => s_cur c >? 1073741824 | ByU16 => false end
+                || (n >=? 4096)).
+  unfold tab_ok, good, good3, hist_lo, dist_active, range_ok, tt_inv, KB64, LZ4_DISTANCE_MAX, LZ4_DISTANCE_ABSOLUTE_MAX,
+    LZ4_64Klimit, MFLIMIT in *.
+  destruct (negb (s_tt c =? 0) && reset) eqn:Er.
+  - (* table cleared *)
+    replace (if negb (s_tt c =? 0) then if reset then mkF empty 0 0 (s_dictSize c) else mkF (s_tab c) (s_cur c) (s_tt c) (s_dictSize c)
+             else mkF (s_tab c) (s_cur c) (s_tt c) (s_dictSize c)) with (mkF empty 0 0 (s_dictSize c))
+      by (destruct (negb (s_tt c =? 0)); [destruct reset; [reflexivity | discriminate] | discriminate]).
+    cbn [f_cur f_tab f_tt f_dictSize s_tab s_cur s_tt s_dictSize s_dict s_dctx Z.eqb negb andb].
+    split; [split; [lia | split; [lia | split; intros; rewrite get_empty; lia]]|].
+    split; [split; [intros _|]; left; reflexivity|].
+    split; [reflexivity|]. split; [reflexivity|]. split; [reflexivity|].
+    split; [intros h; rewrite get_empty; split; [lia|]; left; left; destruct t; lia|].
+    split; [intros _ Hn; left; lia | intros; lia].
+  - (* table kept *)
+    replace (if negb (s_tt c =? 0) then if reset then mkF empty 0 0 (s_dictSize c) else mkF (s_tab c) (s_cur c) (s_tt c) (s_dictSize c)
+             else mkF (s_tab c) (s_cur c) (s_tt c) (s_dictSize c)) with (mkF (s_tab c) (s_cur c) (s_tt c) (s_dictSize c))
+      by (destruct (negb (s_tt c =? 0)); [destruct reset; [discriminate | reflexivity] | reflexivity]).
+    cbn [f_cur f_tab f_tt f_dictSize s_tab s_cur s_tt s_dictSize s_dict s_dctx].
+    destruct t.
+    + (* ByU32: 64 KB gap unless the offset is 0 *)
+      destruct (s_cur c =? 0) eqn:E0; cbn [negb andb].
+      * split; [split; [lia | split; [lia | split; [exact C3 | exact C4]]]|].
+        split; [split; [exact V1 | exact V2]|].
+        split; [reflexivity|]. split; [reflexivity|]. split; [reflexivity|].
+        split; [intros h; specialize (C3 h); split; [lia|]; left; left; lia|].
+        split; [discriminate | intros; lia].
+      * split; [split; [lia | split; [lia | split; intros; specialize (C3 h); specialize (C4 ltac:(lia) h); lia]]|].
+        split; [split; [intros Hz; specialize (V1 Hz); lia | exact V2]|].
+        split; [reflexivity|]. split; [reflexivity|]. split; [reflexivity|].
+        split; [intros h; specialize (C3 h); specialize (C4 ltac:(lia) h); split; [lia|]; left; right; right; split; [reflexivity | lia]|].
+        split; [discriminate|]. intros _ [H|H]; [|lia].
+        unfold reset, tt_code in Er. destruct (s_tt c =? 0) eqn:Ez; [lia|]. cbn [negb andb] in Er. lia.
+    + (* ByU16: no gap, dictSmall when the offset is not 0 *)
+      rewrite andb_false_r.
+      split; [split; [lia | split; [lia | split; [exact C3 | exact C4]]]|].
+      split; [split; [exact V1 | exact V2]|].
+      split; [reflexivity|]. split; [reflexivity|]. split; [reflexivity|].
+      split.
+      * intros h. specialize (C3 h). split; [lia|]. left.
+        destruct (s_cur c =? 0) eqn:E0; cbn [negb]; [left; lia|]. right. left. split; [reflexivity|].
+        specialize (C4 ltac:(lia) h). lia.
+      * split; [|discriminate]. intros _ Hn.
+        destruct (s_cur c =? 0) eqn:E0; cbn [negb]; [left; lia|].
+        destruct (s_tt c =? 0) eqn:Ez.
+        -- right. split; [reflexivity|]. destruct (V1 ltac:(lia)); lia.
+        -- left. unfold reset, tt_code in Er. cbn [negb andb] in Er. lia.
+Qed.
 
 (* ---------------------------------------------------------------- LZ4_resetStream_fast *)
 Lemma resetStream_fast_inv c :
-  table_inv c ->
+  table_inv c -> tt_inv c ->
   let c' := resetStream_fast c in
-  table_inv c' /\ s_dictSize c' = 0 /\ s_dict c' = 0 /\ s_dctx c' = None /\
-  (forall h, get (s_tab c') h + LZ4_DISTANCE_MAX <= (if s_cur c' =? 0 then KB64 else s_cur c')) /\
+  table_inv c' /\ tt_inv c' /\ s_dictSize c' = 0 /\ s_dict c' = 0 /\ s_dctx c' = None /\
   ((s_tt c <> 0 \/ s_cur c <= 2147418112) -> stream_ready c').
 Proof.
-  intros (C & _). cbv zeta. unfold resetStream_fast, s_prepareTable.
-  pose proof (prepareTable_cases (to_f c) 0 ByU32 C) as P. cbv zeta in P. destruct P as (P1 & P2 & P3).
-  split; [apply table_inv_of_f; exact P1|].
-  unfold of_f. cbn [s_dictSize s_dict s_dctx s_tab s_cur].
-  split; [exact P2|]. split; [reflexivity|]. split; [reflexivity|].
-  destruct C as (C1 & C2 & C3 & C4). cbn [to_f f_cur f_dictSize f_tab] in *.
-  unfold prepareTable, to_f in *. cbn [f_tt f_cur f_tab f_dictSize] in *. cbv zeta in *.
-  unfold tt_code, KB64, LZ4_DISTANCE_MAX, stream_ready.
-  destruct (negb (s_tt c =? 0)) eqn:E0.
-  - destruct (negb (s_tt c =? 2) || false || (s_cur c >? 1073741824) || (0 >=? 4096)) eqn:E1;
-      cbn [f_cur f_tab f_tt f_dictSize Z.eqb negb andb].
-    + split; [intros h; rewrite get_empty; lia|]. intros _. cbn [s_cur s_dictSize]. lia.
-    + destruct (s_cur c =? 0) eqn:E2; cbn [negb andb].
-      * rewrite E2. split; [intros h; specialize (C3 h); lia|]. intros _. cbn [s_cur s_dictSize]. lia.
-      * replace (s_cur c + 65536 =? 0) with false by lia.
-        split; [intros h; specialize (C3 h); specialize (C4 ltac:(lia) h); lia|]. intros _. cbn [s_cur s_dictSize]. lia.
-  - cbn [f_cur f_tab f_tt f_dictSize s_cur s_dictSize s_tab].
-    destruct (s_cur c =? 0) eqn:E2; cbn [negb andb].
-    + rewrite ?E2. split; [intros h; specialize (C3 h); lia|]. intros _. lia.
-    + replace (s_cur c + 65536 =? 0) with false by lia.
-      split; [intros h; specialize (C3 h); specialize (C4 ltac:(lia) h); lia|].
-      intros [H|H]; lia.
+  intros (C & _) V. cbv zeta. unfold resetStream_fast.
+  pose proof (prepareTable_any c 0 ByU32 C V) as P. cbv zeta in P.
+  destruct P as (P1 & P2 & P3 & P4 & P5 & _ & _ & P8).
+  split; [split; [exact P1 | rewrite P5; exact I]|].
+  split; [exact P2|]. split; [exact P3|]. split; [exact P4|]. split; [exact P5|].
+  intros H. split; [apply (P8 eq_refl H)|]. destruct P1 as (? & _). lia.
 Qed.
 
 (* ---------------------------------------------------------------- LZ4_loadDict / LZ4_loadDictSlow *)
@@ -546,7 +626,7 @@ Theorem loadDict_inv m a n slow :
   (n < HASH_UNIT -> s_dictSize c = 0) /\
   (HASH_UNIT <= n -> s_dictSize c = Z.min n KB64 /\ s_dict c + s_dictSize c = a + n) /\
   (forall h, get (s_tab c) h = 0 \/ KB64 - s_dictSize c <= get (s_tab c) h < KB64) /\
-  dict_inv (view c).
+  dict_inv (view c) /\ tt_inv c.
 Proof.
   cbv zeta. unfold loadDict. cbv zeta. unfold HASH_UNIT.
   assert (Fin : forall tab ds p tt,
@@ -555,7 +635,7 @@ Proof.
             let c := mkS tab KB64 tt ds p None in
             table_inv c /\ stream_ready c /\
             (forall h, get (s_tab c) h = 0 \/ KB64 - s_dictSize c <= get (s_tab c) h < KB64) /\ dict_inv (view c)).
-  { intros tab ds p tt Hds Ht. cbv zeta. unfold table_inv, stream_ready, dict_inv, ctx_ok, view, KB64, LZ4_DISTANCE_MAX in *.
+  { intros tab ds p tt Hds Ht. cbv zeta. unfold table_inv, stream_ready, dict_inv, range_ok, view, KB64, LZ4_DISTANCE_MAX in *.
     cbn [to_f f_cur f_dictSize f_tab s_tab s_cur s_tt s_dictSize s_dict s_dctx d_tab d_cur d_dictSize].
     split; [split; [|exact I]; split; [lia | split; [lia | split; intros; specialize (Ht h); lia]]|].
     split; [lia|]. split; [exact Ht|]. split; [lia|]. split; [lia|]. intros h. specialize (Ht h). lia. }
@@ -563,7 +643,8 @@ Proof.
   - specialize (Fin empty 0 0 0 ltac:(unfold KB64; lia) ltac:(intros h; left; apply get_empty)). cbv zeta in Fin.
     destruct Fin as (F1 & F2 & F3 & F4). cbn [s_cur s_dctx s_dictSize s_tab s_dict] in *.
     split; [exact F1|]. split; [exact F2|]. split; [reflexivity|]. split; [reflexivity|]. split; [reflexivity|].
-    split; [unfold KB64; lia|]. split; [intros _; reflexivity|]. split; [intros; lia|]. split; [exact F3 | exact F4].
+    split; [unfold KB64; lia|]. split; [intros _; reflexivity|]. split; [intros; lia|]. split; [exact F3|]. split; [exact F4|].
+    unfold tt_inv. cbn [s_tt s_cur]. split; [intros _; right; lia | left; reflexivity].
   - set (dictEnd := a + n).
     set (p := if dictEnd - a >? KB64 then dictEnd - KB64 else a).
     set (ds := dictEnd - p).
@@ -589,47 +670,38 @@ Proof.
     cbn [s_cur s_dctx s_dictSize s_tab s_dict] in *.
     split; [exact F1|]. split; [exact F2|]. split; [reflexivity|]. split; [reflexivity|]. split; [reflexivity|].
     split; [lia|]. split; [intros; lia|]. split; [intros _; split; [lia | unfold ds, dictEnd; lia]|].
-    split; [exact F3 | exact F4].
+    split; [exact F3|]. split; [exact F4|].
+    unfold tt_inv. cbn [s_tt s_cur]. split; [intros; lia | right; left; reflexivity].
 Qed.
 
 (* ---------------------------------------------------------------- LZ4_attach_dictionary *)
-(* the dictionary stream was prepared by LZ4_loadDict ([dict_inv], see loadDict_inv), and the working
-   stream's own entries are at least LZ4_DISTANCE_MAX behind its offset (true right after
-   LZ4_initStream / LZ4_resetStream_fast, see resetStream_fast_inv and attach_pre_init) *)
-Definition attach_pre (c : sctx) (d : option sctx) : Prop :=
-  match d with
-  | None => True
-  | Some ds => dict_inv (view ds) /\
-               forall h, get (s_tab c) h + LZ4_DISTANCE_MAX <= (if s_cur c =? 0 then KB64 else s_cur c)
-  end.
-
-Lemma attach_pre_init d : dict_inv (view d) -> attach_pre s_init (Some d).
-Proof.
-  intros H. split; [exact H|]. intros h. unfold s_init. cbn [s_tab s_cur Z.eqb].
-  rewrite get_empty. unfold LZ4_DISTANCE_MAX, KB64. lia.
-Qed.
+(* the dictionary stream was prepared by LZ4_loadDict ([dict_inv], see loadDict_inv); the working stream may
+   be in any state (since fix F12 the attached dictionary replaces its history) *)
+Definition attach_pre (d : option sctx) : Prop :=
+  match d with None => True | Some ds => dict_inv (view ds) end.
 
 Lemma attach_inv c d :
-  table_inv c -> attach_pre c d ->
+  table_inv c -> attach_pre d ->
   let c' := attach_dictionary c d in
-  table_inv c' /\ (stream_ready c -> stream_ready c').
+  table_inv c' /\ (tt_inv c -> tt_inv c') /\ (stream_ready c -> stream_ready c').
 Proof.
   intros ((C1 & C2 & C3 & C4) & D) P. cbv zeta. unfold attach_dictionary.
-  cbn [to_f f_cur f_dictSize f_tab] in *.
   destruct d as [ds|].
-  - destruct P as (P1 & P2).
-    assert (Hc : 0 < (if s_cur c =? 0 then KB64 else s_cur c)) by (unfold KB64; destruct (s_cur c =? 0) eqn:E; lia).
+  - assert (Hc : 0 < (if s_cur c =? 0 then KB64 else s_cur c)) by (unfold KB64; destruct (s_cur c =? 0) eqn:E; lia).
     assert (He : forall h, 0 <= get (s_tab c) h < (if s_cur c =? 0 then KB64 else s_cur c)).
     { intros h. specialize (C3 h). destruct (s_cur c =? 0) eqn:E; [unfold KB64; lia|]. specialize (C4 ltac:(lia) h). lia. }
-    split.
-    + unfold table_inv, ctx_ok. cbn [to_f f_cur f_dictSize f_tab s_tab s_cur s_tt s_dictSize s_dctx].
+    split; [|split].
+    + unfold table_inv, range_ok. cbn [s_tab s_cur s_tt s_dictSize s_dctx].
       split; [split; [lia | split; [lia | split; intros; specialize (He h); lia]]|].
-      destruct (s_dictSize ds =? 0); [exact I|]. split; [exact P1|]. split; [reflexivity | exact P2].
+      destruct (s_dictSize ds =? 0); [exact I|]. split; [exact P|]. split; [reflexivity | lia].
+    + intros (V1 & V2). unfold tt_inv. cbn [s_tt s_cur]. split; [|exact V2]. intros Hz. specialize (V1 Hz).
+      unfold KB64 in *. destruct (s_cur c =? 0) eqn:E; lia.
     + intros (R1 & R2). unfold stream_ready. cbn [s_cur s_dictSize]. unfold KB64 in *.
       destruct (s_cur c =? 0) eqn:E; lia.
-  - split.
-    + unfold table_inv, ctx_ok. cbn [to_f f_cur f_dictSize f_tab s_tab s_cur s_tt s_dictSize s_dctx].
+  - split; [|split].
+    + unfold table_inv, range_ok. cbn [s_tab s_cur s_tt s_dictSize s_dctx].
       split; [split; [lia | split; [lia | split; assumption]] | exact I].
+    + intros V. exact V.
     + intros R. exact R.
 Qed.
 
@@ -639,7 +711,7 @@ Lemma saveDict_inv m c a n :
   let m' := fst (fst (saveDict m c a n)) in let c' := snd (fst (saveDict m c a n)) in let r := snd (saveDict m c a n) in
   mem_ok m' /\ table_inv c' /\ (stream_ready c -> stream_ready c') /\
   r = s_dictSize c' /\ 0 <= r <= s_dictSize c /\ r <= KB64 /\ s_dict c' = a /\ s_dctx c' = s_dctx c /\ s_cur c' = s_cur c /\
-  (0 <= n -> r = Z.min (Z.min n KB64) (s_dictSize c)).
+  (0 <= n -> r = Z.min (Z.min n KB64) (s_dictSize c)) /\ (tt_inv c -> tt_inv c').
 Proof.
   intros Hm T Hn. cbv zeta. unfold saveDict. cbv zeta.
   pose proof T as ((C1 & C2 & C3 & C4) & D). cbn [to_f f_cur f_dictSize f_tab] in *.
@@ -664,7 +736,7 @@ Proof.
     intros Hd. destruct (s_dctx c); [|congruence]. destruct D as (_ & D & _). lia. }
   split; [intros (R1 & R2); unfold stream_ready; cbn [s_cur s_dictSize]; lia|].
   split; [reflexivity|]. split; [lia|]. split; [lia|]. split; [reflexivity|]. split; [reflexivity|]. split; [reflexivity|].
-  apply H2.
+  split; [apply H2 | intros V; exact V].
 Qed.
 
 (* ---------------------------------------------------------------- one-shot entry points on a stream object *)
@@ -674,45 +746,115 @@ Proof.
   apply load_list_ok. exact Hm.
 Qed.
 
-Lemma s_fastReset_inv m c src n cap acc :
-  mem_ok m -> table_inv c -> table_inv (r_ctx (s_fastReset m c src n cap acc)).
+Lemma src_view_load m a n : load_list (src_view m a n) 0 (Z.to_nat n) = load_list m a (Z.to_nat n).
 Proof.
-  intros Hm (C & _). unfold s_fastReset, of_ares. cbn [r_ctx]. apply table_inv_of_f.
-  pose proof (compress_fast_extState_fastReset_sound (to_f c) (src_view m src n) n cap acc (src_view_ok m src n Hm) C) as H.
-  cbv zeta in H. apply H.
+  unfold src_view, mem_of_list.
+  rewrite <- (load_list_length m a (Z.to_nat n)) at 2. apply load_store_same.
 Qed.
 
-Lemma s_extState_inv m src n cap acc :
-  mem_ok m -> table_inv (r_ctx (s_extState m src n cap acc)).
+(* LZ4_compress_generic(noDict) on a stream whose table is harmless for the chosen directives *)
+Lemma nodict_on_stream m c1 src n cap od t small acc :
+  mem_ok m -> od <> FillOutput -> 1 <= acc -> range_ok c1 -> s_dictSize c1 = 0 -> tt_inv c1 ->
+  tab_ok t CNoDict small (s_cur c1) 0 0 (s_cur c1 + 1) (s_tab c1) ->
+  (t = ByU16 -> n < LZ4_64Klimit) ->
+  (t = ByU16 -> 0 <= n -> s_cur c1 + n - MFLIMIT + 1 <= 65536 \/ (small = true /\ 65536 <= s_cur c1 - 0)) ->
+  let a := compress_generic_nodict (to_f c1) (src_view m src n) n cap od t small acc in
+  range_ok (of_f (a_ctx a)) /\ tt_inv (of_f (a_ctx a)) /\
+  (0 < a_ret a ->
+   a_ret a = Z.of_nat (length (a_out a)) /\ strict_valid [] (a_out a) = Some (load_list m src (Z.to_nat n))).
 Proof.
-  intros Hm. unfold s_extState, of_ares. cbn [r_ctx]. apply table_inv_of_f.
-  (* LZ4_compress_fast_extState = initStream + the same kernel call as the fast-reset variant on a pristine context *)
-  unfold compress_fast_extState. cbv zeta.
+  intros Hm Hod Hacc (C1 & C2 & C3 & C4) Hz V Ht Hu Hi. cbv zeta.
+  pose proof (compress_generic_nodict_sound (to_f c1) (src_view m src n) n cap od t small acc (src_view_ok m src n Hm) Hod Hacc) as G.
+  change (f_cur (to_f c1)) with (s_cur c1) in G. change (f_dictSize (to_f c1)) with (s_dictSize c1) in G.
+  change (f_tab (to_f c1)) with (s_tab c1) in G. rewrite Hz in G.
+  specialize (G ltac:(lia) C1 Ht Hu Hi). cbv zeta in G. destruct G as (G1 & G2 & G3).
+  set (a := compress_generic_nodict (to_f c1) (src_view m src n) n cap od t small acc) in *.
+  assert (K : range_ok (of_f (a_ctx a)) /\ tt_inv (of_f (a_ctx a))).
+  { assert (Same : range_ok (of_f (to_f c1)) /\ tt_inv (of_f (to_f c1))).
+    { unfold of_f, to_f, range_ok, tt_inv in *. cbn [f_tab f_cur f_tt f_dictSize s_tab s_cur s_tt s_dictSize].
+      split; [exact (conj C1 (conj C2 (conj C3 C4))) | exact V]. }
+    destruct (Z_le_gt_dec n 0) as [Hle|Hgt]; [rewrite G1 by lia; exact Same|].
+    destruct (Z_gt_le_dec n LZ4_MAX_INPUT_SIZE) as [Hg|Hl]; [rewrite G1 by lia; exact Same|].
+    destruct (G2 ltac:(lia)) as (B1 & B2 & B3 & B4).
+    unfold of_f, range_ok, tt_inv. cbn [s_tab s_cur s_tt s_dictSize]. rewrite B1, B2, B3.
+    split; [split; [lia | split; [lia | split; intros; specialize (B4 h); lia]]|].
+    unfold tt_code. destruct t; (split; [intros; lia|]); [right; left | right; right]; reflexivity. }
+  destruct K as (K1 & K2). split; [exact K1|]. split; [exact K2|].
+  intros Hr. destruct (G3 Hr) as (A & B & _). split; [exact A|]. rewrite B. f_equal. apply src_view_load.
+Qed.
+
+(* LZ4_compress_fast_extState_fastReset on a stream in ANY state reachable through the API *)
+Theorem s_fastReset_sound m c src n cap acc :
+  mem_ok m -> table_inv c -> tt_inv c ->
+  let r := s_fastReset m c src n cap acc in
+  table_inv (r_ctx r) /\ tt_inv (r_ctx r) /\
+  (0 < r_ret r ->
+   r_ret r = Z.of_nat (length (r_out r)) /\ strict_valid [] (r_out r) = Some (load_list m src (Z.to_nat n))).
+Proof.
+  intros Hm (C & _) V. cbv zeta. unfold s_fastReset, of_ares, compress_fast_extState_fastReset. cbv zeta.
+  cbn [r_ctx r_ret r_out].
   pose proof (clamp_accel_ge acc) as Hacc.
+  pose proof (prepareTable_any c n (ttype_for n) C V) as P. cbv zeta in P.
+  destruct P as (P1 & P2 & P3 & P4 & P5 & P6 & P7 & _).
+  unfold s_prepareTable in *. set (f1 := prepareTable (to_f c) n (ttype_for n)) in *.
+  assert (Ef : f1 = to_f (of_f f1)) by (symmetry; apply to_f_of_f). 
+  assert (Ec : f_cur f1 = s_cur (of_f f1)) by reflexivity.
+  rewrite Ec. rewrite Ef at 2 4.
   assert (K : forall cap' od, od <> FillOutput ->
-            ctx_ok (a_ctx (compress_generic_nodict ctx_init (src_view m src n) n cap' od (ttype_for n) false (clamp_accel acc)))).
-  { intros cap' od Hod.
-    pose proof (compress_generic_nodict_sound ctx_init (src_view m src n) n cap' od (ttype_for n) false (clamp_accel acc)
-                  (src_view_ok m src n Hm) Hod Hacc ltac:(cbn; lia) ltac:(cbn; lia) (tab_ok_init (ttype_for n) false)
-                  (ttype_for_u16 n)) as H.
-    cbv zeta in H. destruct H as (A1 & A2 & _).
-    destruct (Z_le_gt_dec n 0) as [Hle|Hgt]; [rewrite A1 by lia; exact ctx_init_ok|].
-    destruct (Z_gt_le_dec n LZ4_MAX_INPUT_SIZE) as [Hg|Hl]; [rewrite A1 by lia; exact ctx_init_ok|].
-    destruct (A2 ltac:(lia)) as (B1 & B2 & B3). unfold ctx_ok. rewrite B1, B2. cbn [ctx_init f_cur f_dictSize].
-    split; [lia|]. split; [lia|]. split; intros; specialize (B3 h); cbn [ctx_init f_cur] in B3; lia. }
+     let a := compress_generic_nodict (to_f (of_f f1)) (src_view m src n) n cap' od (ttype_for n)
+                (match ttype_for n with ByU16 => negb (s_cur (of_f f1) =? 0) | ByU32 => false end) (clamp_accel acc) in
+     table_inv (of_f (a_ctx a)) /\ tt_inv (of_f (a_ctx a)) /\
+     (0 < a_ret a -> a_ret a = Z.of_nat (length (a_out a)) /\ strict_valid [] (a_out a) = Some (load_list m src (Z.to_nat n)))).
+  { intros cap' od Hod. cbv zeta.
+    pose proof (nodict_on_stream m (of_f f1) src n cap' od (ttype_for n)
+                  (match ttype_for n with ByU16 => negb (s_cur (of_f f1) =? 0) | ByU32 => false end) (clamp_accel acc)
+                  Hm Hod Hacc P1 P3 P2 P6 (ttype_for_u16 n)) as N.
+    assert (Hi : ttype_for n = ByU16 -> 0 <= n ->
+                 s_cur (of_f f1) + n - MFLIMIT + 1 <= 65536 \/
+                 ((match ttype_for n with ByU16 => negb (s_cur (of_f f1) =? 0) | ByU32 => false end) = true /\ 65536 <= s_cur (of_f f1) - 0)).
+    { intros Et Hn. apply (P7 Et). split; [exact Hn | apply ttype_for_u16; exact Et]. }
+    specialize (N Hi). cbv zeta in N. destruct N as (N1 & N2 & N3).
+    split; [split; [exact N1 | exact I]|]. split; [exact N2 | exact N3]. }
+  destruct (ttype_for n) eqn:Et; destruct (cap >=? compressBound n); apply K; discriminate.
+Qed.
+
+(* LZ4_compress_fast_extState: LZ4_initStream, then the kernel on a pristine table *)
+Theorem s_extState_sound m src n cap acc :
+  mem_ok m ->
+  let r := s_extState m src n cap acc in
+  table_inv (r_ctx r) /\ tt_inv (r_ctx r) /\
+  (0 < r_ret r ->
+   r_ret r = Z.of_nat (length (r_out r)) /\ strict_valid [] (r_out r) = Some (load_list m src (Z.to_nat n))).
+Proof.
+  intros Hm. cbv zeta. unfold s_extState, of_ares, compress_fast_extState. cbv zeta. cbn [r_ctx r_ret r_out].
+  pose proof (clamp_accel_ge acc) as Hacc.
+  assert (Ei : ctx_init = to_f s_init) by reflexivity. rewrite Ei.
+  assert (R0 : range_ok s_init) by (destruct table_inv_init; assumption).
+  assert (K : forall cap' od, od <> FillOutput ->
+     let a := compress_generic_nodict (to_f s_init) (src_view m src n) n cap' od (ttype_for n) false (clamp_accel acc) in
+     table_inv (of_f (a_ctx a)) /\ tt_inv (of_f (a_ctx a)) /\
+     (0 < a_ret a -> a_ret a = Z.of_nat (length (a_out a)) /\ strict_valid [] (a_out a) = Some (load_list m src (Z.to_nat n)))).
+  { intros cap' od Hod. cbv zeta.
+    pose proof (nodict_on_stream m s_init src n cap' od (ttype_for n) false (clamp_accel acc) Hm Hod Hacc R0 eq_refl tt_inv_init
+                  (tab_ok_init (ttype_for n) false) (ttype_for_u16 n)) as N.
+    assert (Hi : ttype_for n = ByU16 -> 0 <= n -> s_cur s_init + n - MFLIMIT + 1 <= 65536 \/ (false = true /\ 65536 <= s_cur s_init - 0)).
+    { intros Et Hn. left. pose proof (ttype_for_u16 n Et). unfold s_init, LZ4_64Klimit, MFLIMIT in *. cbn [s_cur]. lia. }
+    specialize (N Hi). cbv zeta in N. destruct N as (N1 & N2 & N3).
+    split; [split; [exact N1 | exact I]|]. split; [exact N2 | exact N3]. }
   destruct (cap >=? compressBound n); apply K; discriminate.
 Qed.
 
-Lemma s_destSize_inv m src n target acc : table_inv (r_ctx (s_destSize m src n target acc)).
-Proof. unfold s_destSize. cbn [r_ctx]. exact table_inv_init. Qed.
+Lemma s_destSize_inv m src n target acc :
+  table_inv (r_ctx (s_destSize m src n target acc)) /\ tt_inv (r_ctx (s_destSize m src n target acc)).
+Proof. unfold s_destSize. cbn [r_ctx]. split; [exact table_inv_init | exact tt_inv_init]. Qed.
 
 (* ---------------------------------------------------------------- LZ4_compress_forceExtDict *)
 Lemma forceExtDict_inv m c src n :
-  mem_ok m -> table_inv c -> stream_ready c -> s_dctx c = None -> 0 <= n <= LZ4_MAX_INPUT_SIZE ->
+  mem_ok m -> table_inv c -> tt_inv c -> stream_ready c -> s_dctx c = None -> 0 <= n <= LZ4_MAX_INPUT_SIZE ->
   let r := forceExtDict m c src n in
-  table_inv (r_ctx r) /\ stream_ready (r_ctx r).
+  table_inv (r_ctx r) /\ tt_inv (r_ctx r) /\ stream_ready (r_ctx r).
 Proof.
-  intros Hm T R Hd Hn. cbv zeta. unfold forceExtDict.
+  intros Hm T V R Hd Hn. cbv zeta. unfold forceExtDict. pose proof (renorm_tt c n V) as V0.
   pose proof (renorm_inv c n T R Hn) as P. cbv zeta in P. destruct P as (T1 & R1 & Q1 & X1 & _).
   set (c0 := renormDictT c n) in *.
   pose proof T1 as ((C1 & C2 & C3 & C4) & _). cbn [to_f f_cur f_dictSize f_tab] in *.
@@ -726,11 +868,13 @@ Proof.
   assert (Hx : s_dctx c0 = None) by congruence.
   destruct (Z.eq_dec n 0) as [Hz|Hnz].
   - rewrite G1 by lia. split; [apply table_inv_with_dict; [exact T1 | lia | congruence]|].
+    split; [apply with_dict_tt; exact V0|].
     unfold stream_ready, with_dict. cbn [s_cur s_dictSize]. lia.
   - destruct (G2 ltac:(lia)) as (tab' & Ht & Er). rewrite Er.
-    split.
+    split; [|split].
     + apply table_inv_with_dict; [apply gen_upd_inv; try assumption; try lia; right; exact Hx | lia|].
       unfold gen_upd. cbn [s_dctx]. congruence.
+    + unfold tt_inv, with_dict, gen_upd. cbn [s_cur s_tt]. split; [intros; lia | right; left; reflexivity].
     + unfold stream_ready, with_dict, gen_upd. cbn [s_cur s_dictSize]. lia.
 Qed.
 
@@ -739,7 +883,7 @@ Qed.
 Definition op_pre (st : mem * sctx) (o : op) : Prop :=
   match o with
   | OWrite a bs => list_ok bs
-  | OAttach d => attach_pre (snd st) d
+  | OAttach d => attach_pre d
   | OContinue src n cap acc => stream_ready (snd st) /\ 0 <= n <= LZ4_MAX_INPUT_SIZE /\ 0 < src
   | OForceExt src n => stream_ready (snd st) /\ s_dctx (snd st) = None /\ 0 <= n <= LZ4_MAX_INPUT_SIZE
   | OSaveDict a n => - 2147483648 <= n < 2147483648
@@ -752,40 +896,38 @@ Fixpoint ops_pre (st : mem * sctx) (ops : list op) : Prop :=
   | o :: r => op_pre st o /\ ops_pre (fst (step st o)) r
   end.
 
-Lemma step_inv m c o :
-  mem_ok m -> table_inv c -> op_pre (m, c) o ->
-  mem_ok (fst (fst (step (m, c) o))) /\ table_inv (snd (fst (step (m, c) o))).
+Definition state_inv (st : mem * sctx) : Prop := mem_ok (fst st) /\ table_inv (snd st) /\ tt_inv (snd st).
+
+Lemma step_inv st o : state_inv st -> op_pre st o -> state_inv (fst (step st o)).
 Proof.
-  intros Hm T P. destruct o; cbn [step op_pre snd] in *.
-  - cbn [fst snd]. split; [intros x; apply store_list_ok; assumption | exact T].
-  - cbn [fst snd]. split; [exact Hm | exact table_inv_init].
-  - cbn [fst snd]. split; [exact Hm | apply resetStream_fast_inv; exact T].
+  destruct st as [m c]. intros (Hm & T & V) P. unfold state_inv in *. cbn [fst snd] in *.
+  destruct o; cbn [step op_pre snd] in *.
+  - cbn [fst snd]. split; [intros x; apply store_list_ok; assumption | split; assumption].
+  - cbn [fst snd]. split; [exact Hm | split; [exact table_inv_init | exact tt_inv_init]].
+  - cbn [fst snd]. pose proof (resetStream_fast_inv c T V) as H. cbv zeta in H. split; [exact Hm | split; apply H].
   - pose proof (loadDict_inv m a n slow) as L. cbv zeta in L.
-    destruct (loadDict m a n slow) as [c' r]. cbn [fst snd] in *. split; [exact Hm | apply L].
-  - cbn [fst snd]. split; [exact Hm | apply attach_inv; assumption].
+    destruct (loadDict m a n slow) as [c' r]. cbn [fst snd] in *. split; [exact Hm | split; apply L].
+  - cbn [fst snd]. pose proof (attach_inv c d T P) as H. cbv zeta in H. split; [exact Hm | split; [apply H | apply H; exact V]].
   - destruct P as (R & Hn & Hs). cbn [fst snd]. split; [exact Hm|].
-    pose proof (fast_continue_sound m c src n cap acc Hm T R Hn Hs) as F. cbv zeta in F.
-    destruct (continue_call (fst (prelude c src n)) (snd (prelude c src n)) src n) as [[cc dd] sm]. apply F.
-  - destruct P as (R & Hd & Hn). cbn [fst snd]. split; [exact Hm | apply forceExtDict_inv; assumption].
+    pose proof (fast_continue_sound m c src n cap acc Hm T V R Hn Hs) as F. cbv zeta in F.
+    destruct (continue_call (fst (prelude c src n)) (snd (prelude c src n)) src n) as [[cc dd] sm]. split; apply F.
+  - destruct P as (R & Hd & Hn). cbn [fst snd]. split; [exact Hm|].
+    pose proof (forceExtDict_inv m c src n Hm T V R Hd Hn) as H. cbv zeta in H. split; apply H.
   - pose proof (saveDict_inv m c a n Hm T P) as S. cbv zeta in S.
-    destruct (saveDict m c a n) as [[m' c'] r]. cbn [fst snd] in *. split; apply S.
-  - cbn [fst snd]. split; [exact Hm | apply s_fastReset_inv; assumption].
-  - cbn [fst snd]. split; [exact Hm | apply s_extState_inv; assumption].
+    destruct (saveDict m c a n) as [[m' c'] r]. cbn [fst snd] in *. split; [apply S | split; [apply S|]].
+    destruct S as (_ & _ & _ & _ & _ & _ & _ & _ & _ & _ & S11). exact (S11 V).
+  - cbn [fst snd]. pose proof (s_fastReset_sound m c src n cap acc Hm T V) as H. cbv zeta in H. split; [exact Hm | split; apply H].
+  - cbn [fst snd]. pose proof (s_extState_sound m src n cap acc Hm) as H. cbv zeta in H. split; [exact Hm | split; apply H].
   - cbn [fst snd]. split; [exact Hm | apply s_destSize_inv].
 Qed.
 
 (* C18 / C11: [table_inv] holds after ANY finite sequence of operations (failed compressions, resets,
    dictionary loads and attachments, saveDict, one-shot calls, index renormalisation included) *)
-Theorem table_inv_run : forall ops st,
-  mem_ok (fst st) -> table_inv (snd st) -> ops_pre st ops ->
-  mem_ok (fst (run st ops)) /\ table_inv (snd (run st ops)).
+Theorem table_inv_run : forall ops st, state_inv st -> ops_pre st ops -> state_inv (run st ops).
 Proof.
-  induction ops as [|o r IH]; intros [m c] Hm T P; cbn [run fold_left fst snd] in *; [split; assumption|].
-  destruct P as (P1 & P2). destruct (step_inv m c o Hm T P1) as (Hm' & T').
-  apply (IH (fst (step (m, c) o)) Hm' T' P2).
+  induction ops as [|o r IH]; intros st I P; cbn [run fold_left] in *; [exact I|].
+  destruct P as (P1 & P2). apply (IH (fst (step st o)) (step_inv st o I P1) P2).
 Qed.
 
-(* when the streaming entry points may be called again: after init / loadDict / any streaming call;
-   after LZ4_resetStream_fast unless the table was never used while the offset is beyond 2^31 - 64 KB *)
 Lemma stream_ready_init : stream_ready s_init.
 Proof. unfold stream_ready, s_init. cbn [s_cur s_dictSize]. lia. Qed.
